@@ -472,10 +472,16 @@ public:
     }
 
     /// \brief Appends characters in the range [ first , last ).
+    /// \pre distance(first, last) <= capacity() - size()
     template <typename InputIt>
         requires(detail::InputIterator<InputIt>)
     constexpr auto append(InputIt first, InputIt last) noexcept -> basic_inplace_string&
     {
+        if constexpr (detail::RandomAccessIterator<InputIt>) {
+            // a sized range that does not fit is reported before the first character is appended
+            TETL_PRECONDITION(last - first >= 0);
+            TETL_PRECONDITION(static_cast<size_type>(last - first) <= capacity() - size());
+        }
         for (; first != last; ++first) {
             push_back(*first);
         }
